@@ -18,8 +18,8 @@ the history; `param.Parameterized` and its `name` parameter are outside the mode
 
 Validators that read the namespace *during* an assignment (the harness's `Nosy` Parameter kind) have
 no step of their own: a read only fills a cache with the fresh walk, which is unobservable while the
-invariant of Props/C13 holds (`nsView_eq`); the one place where it is observable on the real code is
-the recorded finding failed-add-parameter-cache-filled-by-validator.
+invariant of Props/C13 holds (`nsView_eq`); the one place where it was observable on the real code (a failing `add_parameter`) is repaired
+(7bbc787: the caches are cleared on that path too).
 
 No imports other than Assoc: this file is loaded by the driver.
 -/
@@ -229,9 +229,10 @@ def step (s : St) : Op → St × Res
       if q.accepts d then (clearDesc { s1 with heap := s1.heap.set p q } c, .ok)
       else
         -- the re-validation raised: the previous class attribute is put back (or the new one
-        -- deleted) and the exception re-raised; the Parameter object exists but is not installed,
-        -- and no cache is touched
-        ({ s with heap := s.heap ++ [q] }, .runtimeError)
+        -- deleted), the caches of the class and its descendants are cleared (a validator may have
+        -- read the namespace meanwhile) and the exception re-raised; the Parameter object exists
+        -- but is not installed
+        (clearDesc { s with heap := s.heap ++ [q] } c, .runtimeError)
   | .newInst c kw =>
     match s.classes[c]? with
     | none => (s, .stuck)
@@ -265,16 +266,20 @@ def step (s : St) : Op → St × Res
     | none => (s, .stuck)
     | some x => ((nsRead s x.cls).1, .ok)
   | .clsSetParam c n d hi =>
-    -- src: ParameterizedMetaclass.__setattr__, `else` branch: `type.__setattr__` then
-    -- `__param_inheritance` — no `_set_names`, and NO cache is cleared.  Because the Parameter is
-    -- still unnamed, `Parameter.__getattribute__` answers every `Undefined` slot with the slot default,
-    -- so nothing is inherited (its bound stays its own) and the re-validation cannot fail.  (Being
-    -- unnamed also breaks it at instance level: outside the model.)
+    -- src: ParameterizedMetaclass.__setattr__, `else` branch (3c67719): `type.__setattr__`, then
+    -- `_initialize_parameter` (names the Parameter, merges it with the ancestors', re-validates),
+    -- then the caches of the class and its descendants are cleared — like `add_parameter`, except that
+    -- there is NO rollback: when the re-validation raises, the rejected Parameter stays installed and
+    -- no cache is cleared
     match s.classes[c]? with
     | none => (s, .stuck)
-    | some _ =>
+    | some k =>
       if !({ default := d, hi := hi } : Param).accepts d then (s, .valueError) else
-      (setDict { s with heap := s.heap ++ [{ default := d, hi := hi }] } c n s.heap.length, .ok)
+      let p := s.heap.length
+      let s1 := setDict { s with heap := s.heap ++ [{ default := d, hi := hi }] } c n p
+      let q : Param := { default := d, hi := resolvedHi s1 p k.mro n hi }
+      if q.accepts d then (clearDesc { s1 with heap := s1.heap.set p q } c, .ok)
+      else ({ s1 with heap := s1.heap.set p q }, .runtimeError)
   | .instParam i n =>
     -- src: Parameters.__getitem__: `p = self_.objects(instance=False)[key]`; `_instantiated_parameter(inst, p)`
     match s.insts[i]? with
@@ -288,10 +293,6 @@ def step (s : St) : Op → St × Res
         | .error e => (s1, e)
         | .ok (s2, _) => (s2, .ok)
 
-/-- is the operation a Parameter-valued class assignment (the path that skips the caches) -/
-def Op.assignsParam : Op → Bool
-  | .clsSetParam .. => true
-  | _ => false
 
 def run (s : St) (ops : List Op) : St := ops.foldl (fun s op => (step s op).1) s
 
